@@ -143,4 +143,18 @@ CHECKS = {
         assumptions=["default line length (the reader's buffers are sized by QB_LOG_MAX_LEN)", "function name and tags are functions of the call site (file, line), as the dynamic call-site registry requires",
                      "records whose serialised form is within a few bytes of the 512-byte limit are not generated (stored vs. replaced by the notice is not pinned down by the statement)"],
     ),
+    "C12": dict(
+        title="log routing: exactly the enabled targets whose filters select the call site",
+        level="exploration",
+        design_ref="DESIGN.md section 4, C12",
+        technique="model-based + metamorphic property testing: generated filter/target/log histories vs. a declarative model, and the same history with all call sites executed first",
+        level_text="generated histories over up to 3 custom targets (open/close/enable/disable, filter ADD/REMOVE/CLEAR_ALL of all six kinds incl. comma lists, '*', regexes, invalid regexes, "
+                   "priority windows, tag SET/CLEAR/CLEAR_ALL, log calls from 36 overlapping call sites) are checked call by call against a declarative model of the stored filters (exactly-once "
+                   "delivery per selected enabled target, message text, reported tag), and every history is run a second time with all call sites executed before any configuration: both runs must deliver identically",
+        level_note="trusted: the declarative model (matching re-implemented in the harness; regexes through libc regcomp with the same flags); the twin-run oracle needs no model",
+        stages=[rnd("route", "c12", 40000, 1500000, essential=["site_first_seen_between_filter_and_enable", "remove_with_overlap_then_log", "regex_filter", "comma_list", "priority_window", "tag_filter",
+                                                                  "target_closed_and_slot_reused", "clear_all", "delivered", "suppressed", "invalid_regex", "explicit_tag", "three_targets"])],
+        assumptions=["the function name and the explicit tag of a call are functions of (file, line): the dynamic call-site registry identifies a site by (file, line, priority, format)",
+                     "custom targets only; syslog/stderr/file/blackbox targets route through the same code"],
+    ),
 }
